@@ -632,6 +632,8 @@ func (c *Ctx) shiftView(arr Term, off Term) Term {
 		c.declared[fn] = true
 		c.emit(fmt.Sprintf("(declare-fun %s (%s Int) %s)", fn, arr.Sort, arr.Sort))
 		c.emit(fmt.Sprintf("(assert (forall ((a %s) (o Int) (j Int)) (! (= (select (%s a o) j) (select a (+ o j))) :pattern ((select (%s a o) j)))))", arr.Sort, fn, fn))
+		// inverse direction: a read of the underlying array is a read of every existing view of it
+		c.emit(fmt.Sprintf("(assert (forall ((a %s) (o Int) (j Int)) (! (= (select a j) (select (%s a o) (- j o))) :pattern ((%s a o) (select a j)))))", arr.Sort, fn, fn))
 	}
 	return app(arr.Sort, fn, arr, off)
 }
